@@ -288,6 +288,32 @@ theorem fresh_of {g g0 g2 : GState} {mid code : List GLine} (x : Option FRef) (h
     | inl hmid => have := (h.2 l hmid).widen hm (Mono.refl _); simpa [NewIn] using this
     | inr hn => simpa [NewIn] using hn
 
+theorem labels_treeLines (e : GExpr) : labels (treeLines e) = [] := by
+  unfold treeLines
+  generalize treeOps e = t
+  induction t with
+  | nil => rfl
+  | cons x xs ih => simpa [labels] using ih
+
+theorem cmpETest_fresh (g : GState) (op : COp) (e : GExpr) (b : Atom) (eLeft negate : Bool) (label : Lbl) :
+    Fresh g (cmpETest g op e b eLeft negate label) := by
+  unfold cmpETest
+  split
+  · split
+    · simp [Fresh, Mono, NewIn, labels_treeLines, labels]
+    · simp [Fresh, Mono, NewIn, labels_treeLines, labels]
+    · exact fresh_nolabels g [] rfl
+  · have := branchInstr_fresh { g with flags := none } (finalOp op negate (!eLeft)) label
+    simp at this
+    have hp : labels (treeLines e ++ [GLine.ins .CMP (some b)]) = [] := by simp [labels_treeLines, labels]
+    have := fresh_prepend g (treeLines e ++ [GLine.ins .CMP (some b)]) _ hp this
+    simpa [List.append_assoc] using this
+
+theorem truthETest_fresh (g : GState) (e : GExpr) (negate : Bool) (label : Lbl) :
+    Fresh g (truthETest g e negate label) := by
+  unfold truthETest
+  by_cases h : e.topArithm = true <;> simp [Fresh, Mono, NewIn, labels_treeLines, labels, h]
+
 theorem genCond_fresh (c : Cond) : ∀ (g : GState) (negate : Bool) (label : Lbl),
     Fresh g (genCond g c negate label) := by
   induction c with
@@ -295,6 +321,8 @@ theorem genCond_fresh (c : Cond) : ∀ (g : GState) (negate : Bool) (label : Lbl
   | truth v => intro g negate label; exact zeroTest_fresh ..
   | nottruth v => intro g negate label; exact zeroTest_fresh ..
   | not c ih => intro g negate label; simp only [genCond]; exact ih ..
+  | cmpE op e b eLeft => intro g negate label; exact cmpETest_fresh ..
+  | truthE e => intro g negate label; exact truthETest_fresh ..
   | and a b iha ihb =>
     intro g negate label
     cases negate with
